@@ -1,6 +1,6 @@
 (** C10 — changing representation loses nothing: the obligations, written out in full. *)
 From Coq Require Import List NArith ZArith String.
-From SK Require Import lib.LGraph lib.StrJoin model.C10_Model proof.C10_Proof proof.C10_Hydrogen proof.C10_Routes proof.C10_GmlWrite proof.C10_HRound proof.C10_Routes2 proof.C10_Reindex.
+From SK Require Import lib.LGraph lib.StrJoin model.C10_Model proof.C10_Proof proof.C10_Hydrogen proof.C10_Routes proof.C10_GmlWrite proof.C10_HRound proof.C10_Routes2 proof.C10_Reindex proof.C10_MolGraph.
 Import ListNotations.
 Local Open Scope Z_scope.
 
@@ -153,3 +153,33 @@ Theorem C10_two_routes_centre_reindex :
     (forall k, has_node B k = true <-> exists n, has_node c n = true /\ k = fB n).
 Proof. exact two_routes_centre_reindex. Qed.
 Print Assumptions C10_two_routes_centre_reindex.
+
+(** Molecule -> graph -> molecule, the part that is logic (attribute copying in MolToGraph.transform and
+    GraphToMol.graph_to_mol, default flags).  For every molecule as the code reads it from RDKit (atoms in index order:
+    symbol, aromatic flag, total H count, formal charge, atom map; bonds between two different existing atoms, one per
+    pair: [wf_mol]) the RWMol handed back to RDKit has exactly those atoms in the same order — symbol, charge, atom map,
+    and the total H count as explicit no-implicit count — and between every pair of atom indices exactly the bond that
+    was read, with the type get_bond_type_from_order gives (aromatic flags are NOT handed back: RDKit re-perceives them
+    from the AROMATIC bonds when it sanitises).  Bond list ORDER / orientation is not claimed. *)
+Theorem C10_mol_graph_roundtrip :
+  forall m : rmol, wf_mol m = true ->
+    exists bonds', graph_to_mol (mol_to_graph m false false) = Some (map atom_back (fst m), bonds') /\
+                   forall i j, bond_find i j bonds' = option_map bond_type (bond_find i j (snd m)).
+Proof. exact mol_graph_roundtrip. Qed.
+Print Assumptions C10_mol_graph_roundtrip.
+
+(** SMILES -> graph -> SMILES.  RDKit is not modelled: [read] stands for MolFromSmiles + SanitizeMol + the getters,
+    [write] for SanitizeMol + MolToSmiles on the rebuilt RWMol, [canon] for RDKit's canonical SMILES without stereo.
+    Under the two contracts spelled out as premises (RDKit molecules are well formed with bond types single / aromatic /
+    double / triple; rebuilding a molecule from the same atoms — total H count explicit — and the same bonds, in any bond
+    order, writes the canonical SMILES), graph_to_smi (smiles_to_graph s) is the canonical SMILES.
+    Both premises are monitored: oracle clause smiles-roundtrip on every molecule case (TESTED_NOT_PROVED). *)
+Theorem C10_smiles_roundtrip_under_rdkit_contract :
+  forall (Smi : Type) (read : Smi -> option rmol) (write : list watom * list (N * N * Z) -> option Smi) (canon : Smi -> Smi),
+    (forall s m, read s = Some m -> wf_mol m = true /\ forall b e o, In (b, e, o) (snd m) -> bond_type o = o) ->
+    (forall s m bonds', read s = Some m -> (forall i j, bond_find i j bonds' = bond_find i j (snd m)) ->
+                        write (map atom_back (fst m), bonds') = Some (canon s)) ->
+    forall s m, read s = Some m ->
+      match graph_to_mol (mol_to_graph m false false) with Some w => write w | None => None end = Some (canon s).
+Proof. exact smiles_roundtrip_under_contract. Qed.
+Print Assumptions C10_smiles_roundtrip_under_rdkit_contract.
